@@ -1560,7 +1560,8 @@ fn arm_keys(op: &'static str, cx: &mut Ctx) -> bool {
 
 fn arm7(op: &'static str, cx: &mut Ctx) -> bool {
     match op {
-        "ckks_add_into" | "ckks_mul_into" | "ckks_square_into" | "ckks_rotate_into" | "ckks_rescale_into" => arm_ckks(op, cx),
+        "ckks_add_into" | "ckks_mul_into" | "ckks_square_into" | "ckks_rotate_into" | "ckks_rescale_into" | "ckks_add_many" | "ckks_mul_many" | "ckks_mul_add_ct_into"
+        | "ckks_mul_sub_ct_into" | "ckks_dot_product_ct" => arm_ckks(op, cx),
         _ => panic!("core_ops: unknown op {op}"),
     }
 }
@@ -1628,7 +1629,15 @@ fn arm_ckks(op: &'static str, cx: &mut Ctx) -> bool {
             let bytes = module.ckks_rescale_tmp_bytes();
             ckks_exec!(bytes, |sc, dst| module.ckks_rescale_into(&mut dst, kbits, &a, sc), vec![("a", b_glwe(&a))], vec![]);
         }
-        "ckks_mul_into" | "ckks_square_into" => {
+        "ckks_add_many" => {
+            let cnt = cx.rs.usize_in(1, 5);
+            cx.p("inputs", cnt);
+            let ins: Vec<CKKSCiphertext<Vec<u8>>> = (0..cnt).map(|i| if i == 0 { mk_ct(cx, k_a) } else { mk_ct(cx, k_b) }).collect();
+            let refs: Vec<&CKKSCiphertext<Vec<u8>>> = ins.iter().collect();
+            let bytes = module.ckks_add_many_tmp_bytes();
+            ckks_exec!(bytes, |sc, dst| module.ckks_add_many(&mut dst, &refs, sc), ins.iter().map(|c| ("input", b_glwe(c))).collect::<Vec<_>>(), vec![]);
+        }
+        "ckks_mul_into" | "ckks_square_into" | "ckks_mul_many" | "ckks_mul_add_ct_into" | "ckks_mul_sub_ct_into" | "ckks_dot_product_ct" => {
             let k_lay = GLWETensorKeyLayout { n: Degree(n as u32), base2k: Base2K(b as u32), k: TorusPrecision(kk as u32), rank: Rank(1), dnum: Dnum(dnum as u32), dsize: Dsize(1) };
             let mut tsk: GLWETensorKey<Vec<u8>> = GLWETensorKey::alloc_from_infos(&k_lay);
             {
@@ -1646,7 +1655,42 @@ fn arm_ckks(op: &'static str, cx: &mut Ctx) -> bool {
             }
             // the queries see one ciphertext layout: the context's full one (operands and destination never exceed it)
             let dst_lay = glwe;
-            if op == "ckks_mul_into" {
+            if op == "ckks_mul_many" || op == "ckks_dot_product_ct" {
+                let cnt = cx.rs.usize_in(1, 5);
+                cx.p("inputs", cnt);
+                let xs: Vec<CKKSCiphertext<Vec<u8>>> = (0..cnt).map(|i| if i % 2 == 0 { mk_ct(cx, k_a) } else { mk_ct(cx, k_b) }).collect();
+                let ys: Vec<CKKSCiphertext<Vec<u8>>> = (0..cnt).map(|i| if i % 2 == 1 { mk_ct(cx, k_a) } else { mk_ct(cx, k_b) }).collect();
+                let xr: Vec<&CKKSCiphertext<Vec<u8>>> = xs.iter().collect();
+                let yr: Vec<&CKKSCiphertext<Vec<u8>>> = ys.iter().collect();
+                let mut ro: Vec<(&'static str, Vec<u8>)> = xs.iter().map(|c| ("input", b_glwe(c))).collect();
+                ro.push(("tsk_prepared", rdk(kref)));
+                if op == "ckks_mul_many" {
+                    let bytes = module.ckks_mul_many_tmp_bytes(cnt, &dst_lay, &k_lay);
+                    ckks_exec!(bytes, |sc, dst| module.ckks_mul_many(&mut dst, &xr, &tprep, sc), ro.clone(), vec![]);
+                } else {
+                    let bytes = module.ckks_dot_product_ct_tmp_bytes(cnt, &dst_lay, &k_lay);
+                    ckks_exec!(bytes, |sc, dst| module.ckks_dot_product_ct(&mut dst, &xr, &yr, &tprep, sc), ro.clone(), vec![]);
+                }
+            } else if op == "ckks_mul_add_ct_into" || op == "ckks_mul_sub_ct_into" {
+                // the destination is an accumulator, i.e. an input: it gets the same (data-stream) content in every run
+                let mut acc = CKKSCiphertext::alloc(Degree(n as u32), TorusPrecision(dst_k as u32), Base2K(b as u32));
+                fill_digits(acc.data_mut().raw_mut(), n, b, 0, &mut cx.rd);
+                let acc_budget = dst_k.saturating_sub(delta + cx.rs.usize_in(0, b));
+                cx.p("acc_log_budget", acc_budget);
+                macro_rules! load_acc {
+                    ($dst:ident) => {{
+                        $dst.data_mut().raw_mut().copy_from_slice(acc.data().raw());
+                        $dst.set_meta_checked(CKKSMeta { log_delta: delta, log_budget: acc_budget }).ok();
+                    }};
+                }
+                if op == "ckks_mul_add_ct_into" {
+                    let bytes = module.ckks_mul_add_ct_tmp_bytes(&dst_lay, &k_lay);
+                    ckks_exec!(bytes, |sc, dst| { load_acc!(dst); module.ckks_mul_add_ct_into(&mut dst, &a, &bo, &tprep, sc) }, vec![("a", b_glwe(&a)), ("b", b_glwe(&bo)), ("tsk_prepared", rdk(kref))], vec![]);
+                } else {
+                    let bytes = module.ckks_mul_sub_ct_tmp_bytes(&dst_lay, &k_lay);
+                    ckks_exec!(bytes, |sc, dst| { load_acc!(dst); module.ckks_mul_sub_ct_into(&mut dst, &a, &bo, &tprep, sc) }, vec![("a", b_glwe(&a)), ("b", b_glwe(&bo)), ("tsk_prepared", rdk(kref))], vec![]);
+                }
+            } else if op == "ckks_mul_into" {
                 let bytes = module.ckks_mul_tmp_bytes(&dst_lay, &k_lay);
                 ckks_exec!(bytes, |sc, dst| module.ckks_mul_into(&mut dst, &a, &bo, &tprep, sc), vec![("a", b_glwe(&a)), ("b", b_glwe(&bo)), ("tsk_prepared", rdk(kref))], vec![]);
             } else {
